@@ -114,6 +114,57 @@ Definition view_write (B : behaviour) (v : view) (a : arr) (cnt off : list Z) (g
 (** DataView::dataExtent() *)
 Definition view_extent (v : view) : list Z := v_count v.
 
+(** * The template entry points of include/nix/DataSet.hpp that take a VALUE and an offset
+
+      template<typename T> void DataSet::getData(T &value, const NDSize &offset) const
+          NDSize count = hydra.shape();  if (!count) count = NDSize(offset.size(), 1);
+          getData(dtype, hydra.data(), count, offset);
+      template<typename T> void DataSet::setData(const T &value, const NDSize &offset)
+          NDSize shape = hydra.shape();  setData(dtype, hydra.data(), shape, offset);
+
+    [vshape] = hydra.shape(): [] for a scalar value, [n] for a std::vector of n elements (include/nix/Hydra.hpp);
+    [buf] = the number of elements the value holds (1 resp. n).  Neither template resizes the value.
+    For a scalar and an empty offset the count stays EMPTY (setData: for every offset), which a DataView reads as
+    "the whole window".  Repaired ([scalar_template_empty_count] off): a scalar value is a count of ones of the
+    rank of the offset, or of dataExtent() when the offset is empty. *)
+Definition scalar_count (extent_rank : nat) (off : list Z) : list Z :=
+  repeat 1 (match off with [] => extent_rank | _ :: _ => List.length off end).
+
+Definition tpl_get_count (B : behaviour) (extent_rank : nat) (vshape off : list Z) : list Z :=
+  match vshape with
+  | [] => if scalar_template_empty_count B then repeat 1 (List.length off) else scalar_count extent_rank off
+  | _ :: _ => vshape
+  end.
+
+Definition tpl_set_count (B : behaviour) (extent_rank : nat) (vshape off : list Z) : list Z :=
+  match vshape with
+  | [] => if scalar_template_empty_count B then [] else scalar_count extent_rank off
+  | _ :: _ => vshape
+  end.
+
+Definition value_overrun_read : string := "DataSet::getData(value, offset): more elements are written than the value holds".
+Definition value_overrun_write : string := "DataSet::setData(value, offset): more elements are read than the value holds".
+
+(** through a DataView: the transfer HDF5 accepted moves prod(real_count) elements to / from a buffer of [buf] *)
+Definition view_get_value (B : behaviour) (v : view) (a : arr) (vshape : list Z) (buf : Z) (off : list Z) : res (list V) :=
+  let cnt := tpl_get_count B (List.length (view_extent v)) vshape off in
+  bind (view_read B v a cnt off) (fun vals => if buf <? zlen vals then UB value_overrun_read else Ok vals).
+
+Definition view_set_value (B : behaviour) (v : view) (a : arr) (vshape : list Z) (buf : Z) (off : list Z) (gen : nat -> V) : res arr :=
+  let cnt := tpl_set_count B (List.length (view_extent v)) vshape off in
+  bind (view_write B v a cnt off gen) (fun a' => if buf <? prod (real_count v cnt) then UB value_overrun_write else Ok a').
+
+(** the same calls on the DataArray itself (DataArray::ioRead / ioWrite -> read_slab / write_slab): the control.
+    HDF5 compares the element counts of memory and file selection, so an empty count cannot overrun anything. *)
+Definition arr_get_value (B : behaviour) (a : arr) (vshape : list Z) (buf : Z) (off : list Z) : res (list V) :=
+  let cnt := tpl_get_count B (List.length (a_shape a)) vshape off in
+  bind (read_slab a off cnt) (fun vals => if buf <? zlen vals then UB value_overrun_read else Ok vals).
+
+Definition arr_set_value (B : behaviour) (a : arr) (vshape : list Z) (buf : Z) (off : list Z) (gen : nat -> V) : res arr :=
+  let cnt := tpl_set_count B (List.length (a_shape a)) vshape off in
+  if buf <? prod cnt then UB value_overrun_write
+  else write_slab false a off cnt (map gen (seq 0 (Z.to_nat (prod cnt)))).
+
 (** the test array of the drivers: Int64, every cell holds its own flat row-major index *)
 Definition id_array (shape : list Z) : arr :=
   mkArr TInt64 CNone shape (tab shape (fun i => VI (ravel shape i))) None None.
